@@ -235,6 +235,9 @@ def build(r, raw, kinds=None, quick=True):
     elif k == 'icmp': s.icmp(2 + r.below(5))
     elif k == 'datagram': s.datagram(); s.datagram()
     elif k == 'frag': s.frag(big=r.choice([8192, 8200, 16385, 65000]) if r.chance(1, 5) else None)
+    elif k == 'icmp-long': s.icmp(150)          # long histories: a wide sample of checksum values per segment kind
+    elif k == 'udp-long': s.udp(100)
+    elif k == 'tcp-long': s.tcp(80)
     elif k == 'tunbc':
         # link-layer broadcast / multicast traffic carried inside each kind of tunnel: the OUTER header still belongs to the tunnel end points
         for kind in ['vxlan', 'gre', 'erspan1', 'erspan2']:
